@@ -144,16 +144,11 @@ func (r *FileRestorer) RestoreFile(file *dst.File) (*ast.File, error) {
 		f.Comments = append(f.Comments, cg)
 	}
 
-	r.verifCursor("end", "", 0, false, false, false, nil)
-	ff := r.Fset.AddFile(r.Name, r.base, r.fileSize())
-	if !ff.SetLines(r.lines) {
-		panic("ff.SetLines failed")
-	}
-
 	if r.Extras {
 		// Sometimes new nodes are created here (e.g. in RangeStmt the "Object" is an AssignStmt
-		// which never occurs in the actual code). These shouldn't have position information but
-		// perhaps it doesn't matter?
+		// which never occurs in the actual code). They are given positions behind everything that
+		// belongs to the file, so the file is only added to the FileSet afterwards: its size has to
+		// cover them too.
 		// Restoring a node that is not part of the file can find more Objects, which adds to these
 		// lists, so they are processed in order until nothing is left.
 		for i, j := 0, 0; i < len(r.nodeDecl) || j < len(r.nodeData); {
@@ -165,6 +160,12 @@ func (r *FileRestorer) RestoreFile(file *dst.File) (*ast.File, error) {
 			r.nodeData[j].obj.Data = r.restoreNode(r.nodeData[j].node, "", "", "", true)
 			j++
 		}
+	}
+
+	r.verifCursor("end", "", 0, false, false, false, nil)
+	ff := r.Fset.AddFile(r.Name, r.base, r.fileSize())
+	if !ff.SetLines(r.lines) {
+		panic("ff.SetLines failed")
 	}
 
 	return f, nil
